@@ -68,6 +68,7 @@ struct Sim {
   int64_t vns_frac = 0;        // sub-microsecond remainder from instruction cost
   time_t base_time = 1000000000;
   long instr_total = 0;
+  long elig_total = 0; bool elig_on = false;   // instructions executed in programs matching opt fault_only_prefix
   long instr_cost_ns = 100;
   long max_instr = 50000000;
   long max_cycles = 200000;
